@@ -41,6 +41,11 @@ type FindingsFile struct {
 	Fixed    []string  `json:"fixed"`
 }
 
+var ordRe = regexp.MustCompile(`#[0-9]+$`)
+
+// baseName strips the per-exit / per-site ordinal of an obligation name.
+func baseName(s string) string { return ordRe.ReplaceAllString(s, "") }
+
 func globMatch(pat, s string) bool {
 	re := "^" + strings.ReplaceAll(regexp.QuoteMeta(pat), `\*`, ".*") + "$"
 	ok, _ := regexp.MatchString(re, s)
@@ -274,7 +279,7 @@ func runProperty(P *Program, pf *PropFile, findings *FindingsFile, timeout int, 
 				}
 				continue
 			}
-			generated[o.Name] = true
+			generated[baseName(o.Name)] = true
 			co := checkedObl{Name: o.Name, Kind: o.Kind, Result: r.Answer.Result, Solver: r.Answer.Solver, Secs: r.Answer.Secs, Clause: o.Clause, Pos: o.Pos}
 			if cross {
 				co.All = r.All
@@ -327,7 +332,7 @@ func runProperty(P *Program, pf *PropFile, findings *FindingsFile, timeout int, 
 	}
 	// pinned obligations must still be generated
 	for _, p := range pf.Pinned {
-		if !generated[p] {
+		if !generated[baseName(p)] {
 			violation(p, "pinned obligation is no longer generated (function, clause or loop disappeared)", map[string]interface{}{}, false)
 		}
 	}
@@ -491,7 +496,16 @@ func cmdPin(args []string) int {
 					continue
 				}
 				if matchAny(pf.Obligations, o.Name) {
-					names = append(names, o.Name)
+					bn := baseName(o.Name)
+					dup := false
+					for _, x := range names {
+						if x == bn {
+							dup = true
+						}
+					}
+					if !dup {
+						names = append(names, bn)
+					}
 				}
 			}
 		}
